@@ -63,8 +63,8 @@ impl<'de> RandomAccessDeserializer<'de> for FixedSizeListDeserializer<'de> {
 
     fn deserialize_seq<V: Visitor<'de>>(&self, visitor: V, idx: usize) -> Result<V::Value> {
         try_(|| {
-            if idx >= self.len {
-                fail!("Out of bounds access");
+            if !self.is_some(idx)? {
+                fail!("Required value is not defined");
             }
             visitor.visit_seq(ListItemDeserializer {
                 item: self.item.as_ref(),
